@@ -8,3 +8,7 @@ func TestReplay(t *testing.T) { runReplay(t) }
 func TestC02(t *testing.T) { C02.Run(t) }
 func TestC03(t *testing.T) { C03.Run(t) }
 func TestC08(t *testing.T) { C08.Run(t) }
+func TestC04(t *testing.T) { C04.Run(t) }
+func TestC05(t *testing.T) { C05.Run(t) }
+func TestC06(t *testing.T) { C06.Run(t) }
+func TestC09(t *testing.T) { C09.Run(t) }
